@@ -21,9 +21,9 @@ CLAIMED = {
     "C17": dict(
         engine="srvsim",
         technique="deterministic simulation of the real service with 2-3 simulated clients: seeded interleavings at every database await point (handlers parked between any two of their calls), database faults, clock jumps, tiny temporary-name space; provenance-based foreign-write oracle inside the store, marker-based foreign-data oracle on responses, credential and own-view oracles",
-        text="2-3 clients with cookie jars run generated scripts over all ten endpoints; every submitted code carries its client's marker and every stored document the provenance of the request that created it. The simulator interleaves the clients' handlers between any two database calls of one handler. Verdicts: no response contains another client's marker; no request or background task modifies or deletes a document another client created (checked at the call); own view equals the client's acknowledged data (disjoint-name configuration); stored credentials are salted argon2 strings, never plaintext, never equal for two accounts; a login is acknowledged iff the credential found was produced from the submitted password; requests without a valid session get no problem data. Two configurations (disjoint / contended account names) run separately. Exploration-level evidence; one open known finding (rename window).",
+        text="2-3 clients with cookie jars run generated scripts over all ten endpoints; every submitted code carries its client's marker and every stored document the provenance of the request that created it. The simulator interleaves the clients' handlers between any two database calls of one handler. Verdicts: no response contains another client's marker; no request or background task modifies or deletes a document another client created (checked at the call); own view equals the client's acknowledged data (disjoint-name configuration); stored credentials are salted argon2 strings, never plaintext, never equal for two accounts; a login is acknowledged iff the credential found was produced from the submitted password; requests without a valid session get no problem data; every client re-executed alone under the projection of the same schedule sees the identical history (O5, disjoint configuration). Two configurations (disjoint / contended account names) run separately. Exploration-level evidence; one open known finding (rename window).",
         design_ref="DESIGN.md 5.6",
-        note="Trusted: MongoDB stub incl. provenance bookkeeping, names stub, harness model. O5 (solo re-execution) not implemented.",
+        note="Trusted: MongoDB stub incl. provenance bookkeeping, names stub, harness model.",
     ),
     "C11": dict(
         engine="libsim",
